@@ -11,17 +11,28 @@ Run-time contracts evaluated on the real `bnp.open(path, 'w'|'a').write(...)` / 
   lazy-write        a table obtained by reading a (reference-written) file, unmodified or with one column replaced,
                     written in pieces -> reference serialisation of the (modified) table, source header once
   rechunk-stream    out.write(bnp.open(src).read_chunks(n)) -> content of src
+  row-selection     a table that is a row selection of another (built or read) table - reversed, permuted, masked,
+                    strided, tail / middle slice, repeated rows, empty, rotated with np.concatenate, selections of
+                    selections - written once -> reference serialisation of the selected rows (Python list semantics),
+                    and read back
+  one-table-history ONE table object written more than once (successive writes, stream, 'w' then 'a', separate files),
+                    its slices / masks as the pieces, a selection taken after a write -> every write gives the reference
+                    bytes of its rows, and the object the caller holds is unchanged by the writes (frame condition:
+                    deep snapshot of the columns before == after; a read table still equals its source file)
 
 Scope: per type a pool of K hand-built rows with field widths 1..long, every table of 0..2 rows over the pool and
 3-row tables (quick: a Latin-square sample, thorough: all), every composition of the rows into pieces plus empty
 pieces in front / in the middle / at the end; FASTA lengths around multiples of the line width (80, and subclasses with
 widths 1, 2, 3, 7 at every length 1..2W+2); sequence alphabets; chromosome as StringEncoding; integer boundaries
 10^k-1, 10^k (k<=14) and, as its own region, |v| >= 10^15-1; file suffixes and mode spellings; grouped_stream as the
-stream; a seeded sample of 4..6-row tables above the bounds.
+stream; a seeded sample of 4..6-row tables above the bounds; row selections of 3..6-row tables of every type (every
+index list / mask / slice of 3-row tables) and histories of writes of one object (see derived_family, history_family).
 
 Failure signatures name the class of the fault, found by re-running neighbouring cases (`classify_write`): a failure of
 the single plain write is `canonical-bytes:<type | variant=.. | bigint | delimited>`, one that needs the pieces is
 `pieces-differ:<mode>[:gz-only][:<type>]`, header faults are `header-not-once:<mode>[:gz-only]:<missing|repeated|..>`.
+Faults that need a derived / re-used table object (the same rows as freshly built tables are fine):
+`row-selection:[lazy:][empty:]<type>`, `rewrite-same-table:[lazy:][<mode>:]<type>`, `table-changed-by-write:[lazy:]<type>`.
 """
 import gzip
 import itertools
@@ -495,6 +506,21 @@ def _classify_write(tmp, case, outcome):
     return "pieces-differ:%s%s%s%s" % (mode, zpart, tpart, tail)
 
 
+def _readback_signature(tmp, case, r):
+    """signature of a failed read-back (outcome r) of the file written by the write case `case`"""
+    zpart = ""
+    if case["gz"]:
+        plain = evaluate_write(tmp, dict(case, gz=False), tag="probe")["readback"]
+        if plain is not None and plain[0] == "ok":
+            zpart = ":gz-only"
+    sig = "read-back:" + _label(tmp, dict(case, gz=False), "readback", r) + zpart + (":exception:" + r[1] if r[0] == "exc" else "")
+    if case.get("suffix") and case["suffix"] != SPECS[case["type"]].suffix:
+        std = evaluate_write(tmp, dict(case, suffix=None), tag="probe")["readback"]
+        if not _same(std, r):
+            sig += ":suffix=" + case["suffix"]
+    return sig
+
+
 def exec_write(col, tmp, case):
     mode, gz = case["mode"], case["gz"]
     contract = "canonical-bytes" if mode == "one" else "pieces:" + mode
@@ -513,17 +539,7 @@ def exec_write(col, tmp, case):
         col.case(dict(case, k="read-back"), contract="read-back" + (":gz" if gz else ""))
         r = res["readback"]
         if r[0] != "ok":
-            zpart = ""
-            if gz:
-                plain = evaluate_write(tmp, dict(case, gz=False), tag="probe")["readback"]
-                if plain is not None and plain[0] == "ok":
-                    zpart = ":gz-only"
-            sig = "read-back:" + _label(tmp, dict(case, gz=False), "readback", r) + zpart + (":exception:" + r[1] if r[0] == "exc" else "")
-            if case.get("suffix") and case["suffix"] != SPECS[case["type"]].suffix:
-                std = evaluate_write(tmp, dict(case, suffix=None), tag="probe")["readback"]
-                if not _same(std, r):
-                    sig += ":suffix=" + case["suffix"]
-            col.fail(sig, case, r[2])
+            col.fail(_readback_signature(tmp, case, r), case, r[2])
 
 
 def source_bytes(spec, rows, header):
@@ -689,6 +705,271 @@ def exec_rechunk(col, tmp, case):
         col.fail(sig, case, msg)
 
 
+# ------------------------------------------------------------- one table object: row selections and repeated writes
+
+def select_rows(rows, sel):
+    """oracle of a row selection (a list of indexing steps): Python list semantics"""
+    for step in sel:
+        k = step[0]
+        if k == "slice":
+            rows = rows[slice(step[1], step[2], step[3])]
+        elif k in ("list", "array"):
+            rows = [rows[i] for i in step[1]]
+        elif k == "mask":
+            assert len(step[1]) == len(rows)
+            rows = [r for r, m in zip(rows, step[1]) if m]
+        elif k == "rotate":
+            rows = rows[step[1]:] + rows[:step[1]]
+        else:
+            raise ValueError(k)
+    return rows
+
+
+def apply_selection(table, sel):
+    """the same steps on the library's table object (public indexing of a bnpdataclass, np.concatenate)"""
+    import numpy as np
+    for step in sel:
+        k = step[0]
+        if k == "slice":
+            table = table[slice(step[1], step[2], step[3])]
+        elif k == "list":
+            table = table[list(step[1])]
+        elif k == "array":
+            table = table[np.array(step[1], dtype=int)]
+        elif k == "mask":
+            table = table[np.array(step[1], dtype=bool)]
+        elif k == "rotate":
+            table = np.concatenate([table[step[1]:], table[:step[1]]])
+        else:
+            raise ValueError(k)
+    return table
+
+
+def selection_class(n, sel):
+    idx = select_rows(list(range(n)), sel)
+    if idx == list(range(n)):
+        return "identity"
+    if not idx:
+        return "empty"
+    if idx == list(range(len(idx))):
+        return "prefix"
+    if len(set(idx)) < len(idx):
+        return "repeat"
+    if any(b < a for a, b in zip(idx, idx[1:])):
+        return "reorder"
+    return "subset"
+
+
+def _snapshot(table, spec):
+    """deep plain-Python copy of the columns of an in-memory table (old() of the frame condition)"""
+    import numpy as np
+    snap = {}
+    for fname, _ in spec.fields:
+        v = getattr(table, fname)
+        try:
+            snap[fname] = to_py(v)
+        except TypeError:                       # a column of StringEncoding codes has no text form as an array: its codes
+            snap[fname] = np.asarray(v.raw()).tolist()
+    return snap
+
+
+def evaluate_derived(tmp, case, tag="d"):
+    """ONE table object (freshly built, or read from a reference-written file); every write of the history writes a
+    row selection of that object (the empty selection [] = the object itself), derived just before the write (or all
+    in advance: prederive).  mode: one|multi (successive writes of one writer), stream, append ('w' then 'a'),
+    files (every write to a file of its own).
+    -> {"write": outcome, "unchanged": outcome | None, "readback": outcome | None}   (outcomes as in evaluate_write)"""
+    import traceback
+    import bionumpy as bnp
+    from bionumpy.streams import NpDataclassStream
+    spec = SPECS[case["type"]]
+    rows, variant, writes, mode, gz = case["rows"], case.get("variant"), case["writes"], case["mode"], case["gz"]
+    source, header = case.get("source", "built"), case.get("header") or ""
+    bt = buffer_type(bnp, spec)
+    ext = spec.suffix + (".gz" if gz else "")
+    n_files = len(writes) if mode == "files" else 1
+    paths = [os.path.join(tmp, "%s%d%s" % (tag, i, ext)) for i in range(n_files)]
+    res = {"write": None, "unchanged": None, "readback": None}
+    base, before = None, None
+    try:
+        if source == "read":
+            src = os.path.join(tmp, tag + "src" + spec.suffix)
+            with open(src, "wb") as f:
+                f.write(source_bytes(spec, rows, header))
+            base = bnp.open(src, buffer_type=bt).read()
+        else:
+            base = build_table(bnp, spec, rows, variant)
+            before = _snapshot(base, spec)
+    except Exception as e:
+        res["write"] = ("exc", type(e).__name__, traceback.format_exc()[-500:])
+        return res
+    lazy = hasattr(base, "get_data_object")
+    if header and not lazy:
+        # an eagerly read table keeps the source header as a context of the whole object only (see exec_lazy): out of scope
+        res["write"] = ("skip", "", "")
+        return res
+    try:
+        for p in paths:
+            if os.path.exists(p):
+                os.unlink(p)
+        ready = [apply_selection(base, s) for s in writes] if case.get("prederive") else None
+        def piece(i):
+            return ready[i] if ready is not None else apply_selection(base, writes[i])
+        if mode in ("one", "multi"):
+            with bnp.open(paths[0], "w", buffer_type=bt) as f:
+                for i in range(len(writes)):
+                    f.write(piece(i))
+        elif mode == "stream":
+            with bnp.open(paths[0], "w", buffer_type=bt) as f:
+                f.write(NpDataclassStream(piece(i) for i in range(len(writes))))
+        elif mode == "append":
+            for i in range(len(writes)):
+                with bnp.open(paths[0], "w" if i == 0 else "a", buffer_type=bt) as f:
+                    f.write(piece(i))
+        elif mode == "files":
+            for i in range(len(writes)):
+                with bnp.open(paths[i], "w", buffer_type=bt) as f:
+                    f.write(piece(i))
+        else:
+            raise ValueError(mode)
+        datas = [read_file(p) for p in paths]
+    except Exception as e:
+        res["write"] = ("exc", type(e).__name__, traceback.format_exc()[-500:])
+        datas = None
+    # the object the caller holds is what it was (frame condition of write)
+    try:
+        if before is not None:
+            after = _snapshot(base, spec)
+            bad = [f for f, _ in spec.fields if after[f] != before[f]]
+            res["unchanged"] = ("ok", "", "") if not bad else \
+                ("diff", "", "field %s of the written table: %r before the write(s), %r after" % (bad[0], before[bad[0]], after[bad[0]]))
+        else:
+            ok, msg = compare_readback(spec, rows, _force(base, spec))
+            res["unchanged"] = ("ok", "", "") if ok else ("diff", "", "table read from the source file, after it was written: " + msg)
+    except Exception as e:
+        res["unchanged"] = ("exc", type(e).__name__, traceback.format_exc()[-500:])
+    if datas is None:
+        return res
+    selected = [select_rows(rows, s) for s in writes]
+    expected = selected if mode == "files" else [[r for part in selected for r in part]]
+    exp_header = header_marker(spec) + b"\n" if spec.header == "columns" else (header.encode() if header and lazy else None)
+    res["write"] = ("ok", "", "")
+    for i, (data, exp_rows) in enumerate(zip(datas, expected)):
+        ok, kind, msg = check_content(spec, exp_rows, data, exp_header)
+        if not ok:
+            where = "write %d of %d: " % (i + 1, len(datas)) if len(datas) > 1 else ""
+            res["write"] = ("header", kind[7:], where + msg) if kind.startswith("header") else ("body", "", where + msg)
+            return res
+    if case.get("readback") and mode != "files":
+        try:
+            back = _force(bnp.open(paths[0], buffer_type=bt).read(), spec)
+            ok, msg = compare_readback(spec, expected[0], back)
+            res["readback"] = ("ok", "", "") if ok else ("diff", "", msg)
+        except Exception as e:
+            res["readback"] = ("exc", type(e).__name__, traceback.format_exc()[-500:])
+    return res
+
+
+def _fresh_write_case(case, rows, split, mode, gz):
+    return {"kind": "write", "type": case["type"], "variant": case.get("variant"), "rows": rows, "split": split, "mode": mode, "gz": gz}
+
+
+def classify_derived(tmp, case, outcome):
+    n = len(case["rows"])
+    key = ("derived", case["type"], case.get("variant"), case.get("source"), bool(case.get("header")), case["mode"], case["gz"],
+           tuple(selection_class(n, s) for s in case["writes"]), bool(case.get("prederive")), outcome[0], outcome[1])
+    if key not in _memo:
+        _memo[key] = _classify_derived(tmp, case, outcome)
+    return _memo[key]
+
+
+def _outcome_tail(outcome):
+    return {"exc": ":exception:" + outcome[1], "header": ":header-" + outcome[1], "body": ""}[outcome[0]]
+
+
+def _classify_derived(tmp, case, outcome):
+    """signature of a failed history of writes of one table object.
+    1. a selection that fails as the single plain write of a fresh object: if the same rows fail as a freshly built
+       table too it is the existing class of that write, else 'row-selection:[lazy:][empty:]<type>';
+    2. every selection is fine on its own: if the same pieces as independently built tables fail in the same mode it is
+       the existing class of that write, else 'rewrite-same-table:[lazy:][<mode>:]<type>' (the object is written more
+       than once / used after it was written; <mode> only if the same writes to separate files are fine)."""
+    rows, writes, mode, gz = case["rows"], case["writes"], case["mode"], case["gz"]
+    n = len(rows)
+    read = case.get("source") == "read"
+    lazy = "lazy:" if read else ""
+    selected = [select_rows(rows, s) for s in writes]
+    for s, er in zip(writes, selected):
+        single = outcome if (len(writes) == 1 and mode == "one" and not gz) else \
+            evaluate_derived(tmp, dict(case, writes=[s], mode="one", gz=False, readback=False, prederive=False), tag="probe")["write"]
+        if single[0] == "ok":
+            continue
+        fresh_case = _fresh_write_case(case, er, [len(er)], "one", False)
+        fresh = evaluate_write(tmp, fresh_case, tag="probe")["write"]
+        if fresh[0] != "ok":
+            return classify_write(tmp, fresh_case, fresh)
+        cls = selection_class(n, s)
+        if read and cls == "identity":
+            lcase = {"kind": "lazy", "type": case["type"], "rows": rows, "header": case.get("header") or "", "modify": None,
+                     "split": [n], "mode": "multi", "gz": False}
+            return _lazy_signature(tmp, lcase, rows, ":exception:" + single[1] if single[0] == "exc" else "")
+        return "row-selection:%s%s%s%s" % (lazy, "empty:" if cls == "empty" else "", case["type"], _outcome_tail(single))
+    if mode == "files":
+        for er in selected:
+            fresh_case = _fresh_write_case(case, er, [len(er)], "one", gz)
+            fresh = evaluate_write(tmp, fresh_case, tag="probe")["write"]
+            if fresh[0] != "ok":
+                return classify_write(tmp, fresh_case, fresh)
+    else:
+        fmode = "one" if (mode in ("one", "multi") and len(writes) == 1) else ("multi" if mode == "one" else mode)
+        fresh_case = _fresh_write_case(case, [r for part in selected for r in part], [len(er) for er in selected], fmode, gz)
+        fresh = evaluate_write(tmp, fresh_case, tag="probe")["write"]
+        if fresh[0] != "ok":
+            return classify_write(tmp, fresh_case, fresh)
+    zpart = ""
+    if gz and evaluate_derived(tmp, dict(case, gz=False, readback=False), tag="probe")["write"][0] == "ok":
+        zpart = ":gz-only"
+    if outcome[0] == "header":       # header faults are a matter of the writer and the target, not of the table (see header_signature)
+        return header_signature(mode, zpart, "header-" + outcome[1], all(len(er) == 0 for er in selected))
+    mpart = ""
+    if mode != "files":          # the same writes, each to a file of its own: fine -> the fault needs this mode
+        if evaluate_derived(tmp, dict(case, mode="files", readback=False), tag="probe")["write"][0] == "ok":
+            mpart = mode + ":"
+    return "rewrite-same-table:%s%s%s%s%s" % (lazy, mpart, case["type"], zpart, _outcome_tail(outcome))
+
+
+def exec_derived(col, tmp, case):
+    writes, mode, gz = case["writes"], case["mode"], case["gz"]
+    n = len(case["rows"])
+    lazy = "lazy:" if case.get("source") == "read" else ""
+    if len(writes) == 1:
+        contract = "row-selection:" + lazy + selection_class(n, writes[0])
+    else:
+        contract = "one-table-history:" + lazy + mode
+    res = evaluate_derived(tmp, case)
+    w, u, r = res["write"], res["unchanged"], res["readback"]
+    if w[0] == "skip":
+        return
+    col.case(case, contract=contract + (":gz" if gz else ""))
+    if u is not None and u[0] != "ok":
+        col.fail("table-changed-by-write:%s%s%s" % (lazy, case["type"], ":exception:" + u[1] if u[0] == "exc" else ""), case, u[2])
+    if w[0] != "ok":
+        what = "; ".join("rows %r" % (select_rows(list(range(n)), s),) for s in writes)
+        col.fail(classify_derived(tmp, case, w), case, "written: %s of one %d-row table (%s): %s" % (what, n, mode, w[2]))
+        return
+    if r is not None:
+        col.case(dict(case, k="read-back"), contract="read-back" + (":gz" if gz else ""))
+        if r[0] != "ok":
+            expected = [x for s in writes for x in select_rows(case["rows"], s)]
+            wcase = dict(_fresh_write_case(case, expected, [len(expected)], "one", gz), readback=True)
+            fresh = evaluate_write(tmp, wcase, tag="probe")["readback"]
+            if fresh is not None and fresh[0] != "ok":
+                sig = _readback_signature(tmp, wcase, fresh)
+            else:
+                sig = "read-back:row-selection:%s%s%s" % (lazy, case["type"], ":exception:" + r[1] if r[0] == "exc" else "")
+            col.fail(sig, case, r[2])
+
+
 def exec_case(col, tmp, case):
     k = case["kind"]
     if k == "write":
@@ -697,6 +978,8 @@ def exec_case(col, tmp, case):
         exec_lazy(col, tmp, case)
     elif k == "rechunk":
         exec_rechunk(col, tmp, case)
+    elif k == "derived":
+        exec_derived(col, tmp, case)
     else:
         raise ValueError(k)
 
@@ -961,12 +1244,161 @@ def sampled_family(tier, rng):
         yield {"kind": "write", "type": tname, "variant": variant, "rows": rows, "split": [6], "mode": "one", "gz": False, "readback": True}
 
 
+def _sl(a, b, c=None):
+    return ["slice", a, b, c]
+
+
+def _perm(n, salt=0):
+    return sorted(range(n), key=lambda i: ((i + 1 + salt) * 2654435761) % 1000003)
+
+
+def selections(n, level):
+    """row selections of an n-row table (n >= 3).  level 0: one of each class; 1: the standard set; 2: everything"""
+    perm = _perm(n)
+    drop = [not (i == 0 or i == n // 2) for i in range(n)]
+    core = [[_sl(None, None, -1)], [["mask", drop]], [["list", perm]], [_sl(1, None)]]
+    if level == 0:
+        return core
+    std = core + [[_sl(None, None, 2)], [_sl(1, None, 2)], [_sl(1, -1)], [_sl(n - 1, None)], [_sl(None, 2)],
+                  [["array", perm]], [["list", [0, 0, n - 2]]], [["list", [-1, 0]]], [["mask", [i % 2 == 0 for i in range(n)]]],
+                  [["mask", [False] * n]], [_sl(2, 2)], [["rotate", 2]],
+                  [_sl(None, None, -1), _sl(1, None)], [["mask", drop], _sl(None, None, -1)], [_sl(1, None), ["list", _perm(n - 1, 3)]]]
+    if level == 1:
+        return std
+    return std + [[_sl(None, None, -2)], [_sl(-2, None)], [_sl(n - 2, 0, -1)], [["array", []]], [["array", [n - 1] * 3]],
+                  [["mask", [i == n - 1 for i in range(n)]]], [["mask", [True] * n]], [["list", perm], ["list", perm]],
+                  [["rotate", 1], _sl(None, None, 2)], [_sl(None, None, 2), _sl(None, None, -1)], [["list", perm], ["mask", drop]]]
+
+
+def small_selections(n, tier):
+    """every selection of a small table: all index lists of length 1..n, all masks, all slices (distinct results, by kind)"""
+    out, seen = [], set()
+    def add(sel):
+        key = (sel[0][0] if sel[0][0] != "array" else "list", tuple(select_rows(list(range(n)), sel)), sel[0][3] if sel[0][0] == "slice" else None)
+        if key not in seen:
+            seen.add(key)
+            out.append(sel)
+    for k in range(1, n + 1):
+        for idx in itertools.product(range(n), repeat=k):
+            add([["list" if sum(idx) % 2 else "array", list(idx)]])
+    for m in itertools.product([False, True], repeat=n):
+        add([["mask", list(m)]])
+    bounds = [None] + list(range(-n, n + 1))
+    for step in (None, -1, 2, -2) + ((3, -3) if tier == "thorough" else ()):
+        for a in bounds:
+            for b in bounds:
+                add([_sl(a, b, step)])
+    return out
+
+
+DERIVED_KEY_TYPES = [("fastq", "base"), ("fasta", "base"), ("vcf", None), ("sam", None), ("bed12", None)]
+LAZY_TYPES = ("interval", "bed6", "bed12", "bedgraph", "narrowpeak", "vcf", "sam", "gtf", "fasta", "fasta2", "fastq")
+
+
+def _derived(tname, variant, rows, writes, mode="one", gz=False, **kw):
+    return dict({"kind": "derived", "type": tname, "variant": variant, "rows": rows, "writes": writes, "mode": mode, "gz": gz}, **kw)
+
+
+def derived_family(tier):
+    """the write -> read scope for tables that are row selections of another table (reordered, reversed, masked, strided,
+    tail / middle slices, repeated rows, empty, rotated by concatenation, composed selections), for every type"""
+    thorough = tier == "thorough"
+    for minor, tvs in ((False, TYPE_VARIANTS), (True, MINOR_VARIANTS)):
+        for tname, variant in tvs:
+            p = pool(tname, variant, tier)
+            for n in (((5, 3) if minor else (5, 3, 6, 4)) if thorough else (5,)):
+                if n > len(p):
+                    continue
+                rows = p[:n] if n != 3 else p[1:4]
+                level = (1 if minor or n != 5 else 2) if thorough else (0 if minor else 1)
+                for j, sel in enumerate(selections(n, level)):
+                    yield _derived(tname, variant, rows, [sel], readback=True)
+                    if (thorough and n == 5 and not minor) or (not minor and j < 2):
+                        yield _derived(tname, variant, rows, [sel], gz=True, readback=thorough)
+    # small tables: every selection
+    for tname, variant in (TYPE_VARIANTS if thorough else DERIVED_KEY_TYPES):
+        p = pool(tname, variant, tier)
+        for n in ((3, 4) if thorough and (tname, variant) in DERIVED_KEY_TYPES[:3] else (3,)):
+            rows = p[:n]
+            for sel in small_selections(n, tier):
+                yield _derived(tname, variant, rows, [sel], readback=thorough and n == 3 and sel[0][0] != "slice")
+    # tables read from a file (lazy objects where the format has them), row-selected and written
+    for tname in LAZY_TYPES:
+        p = pool(tname, None, tier)
+        for hi, header in enumerate(HEADERS[tname]):
+            for n in ((5, 3) if thorough else (4,)):
+                rows = p[:n]
+                sels = selections(n, 1)
+                if hi > 0 and not thorough:
+                    sels = selections(n, 0)
+                elif not thorough:
+                    sels = [x for i, x in enumerate(sels) if i not in (5, 8, 9, 12, 14, 17)]
+                for sel in sels:
+                    yield _derived(tname, None, rows, [sel], source="read", header=header, readback=hi == 0)
+                    if thorough and n == 5:
+                        yield _derived(tname, None, rows, [sel], source="read", header=header, gz=True)
+
+
+def history_family(tier):
+    """the same table object written more than once / used after it was written: the object is unchanged by a write, a
+    second write gives the same bytes, slices of one object as the pieces, a selection taken after a write"""
+    thorough = tier == "thorough"
+    rev = [_sl(None, None, -1)]
+    for minor, tvs in ((False, TYPE_VARIANTS), (True, MINOR_VARIANTS)):
+        for tname, variant in tvs:
+            p = pool(tname, variant, tier)
+            ns = (3,) if minor or not thorough else (3, 1, 2, 4) if (tname, variant) in DERIVED_KEY_TYPES else (3, 1, 2)
+            for n in ns:
+                rows = p[1:1 + n]
+                m = [i % 2 == 0 for i in range(n)]
+                hs = []
+                for mode in ("multi", "stream", "append", "files"):
+                    hs.append(([[], []], mode, False, False))
+                    if thorough or (not minor and mode in ("multi", "files")):
+                        hs.append(([[], []], mode, True, False))
+                hs.append(([[], [], []], "multi", False, False))
+                hs.append(([[], [], []], "append", False, False))
+                hs.append(([[], rev], "multi", False, False))
+                hs.append(([rev, []], "files", False, True))
+                if n > 1:
+                    hs.append(([[], [_sl(1, None)]], "append", False, False))
+                    hs.append(([[["mask", m]], [["mask", [not x for x in m]]]], "multi", False, False))
+                    hs.append(([[["mask", m]], [], [["list", _perm(n)]]], "stream", False, True))
+                    comps = [c for c in compositions(n) if len(c) > 1]
+                    if not thorough:
+                        comps = comps[-1:] if minor else [comps[0], comps[-1]]
+                    for c in comps:
+                        cuts = [sum(c[:i]) for i in range(len(c) + 1)]
+                        sl = [[_sl(a, b)] for a, b in zip(cuts, cuts[1:])]
+                        for mode in ("multi", "stream", "append"):
+                            for pre in ((False, True) if thorough and mode != "append" else (mode == "stream",)):
+                                hs.append((sl, mode, False, pre))
+                        if thorough:
+                            hs.append((sl, "append", True, False))
+                            hs.append((sl[::-1], "multi", False, False))
+                if minor and not thorough:
+                    hs = [h for i, h in enumerate(hs) if i in (0, 3, 6, 7) or h[0][0] == [_sl(0, 1)]]
+                for writes, mode, gz, pre in hs:
+                    yield _derived(tname, variant, rows, writes, mode=mode, gz=gz, prederive=pre)
+    for tname in LAZY_TYPES:
+        p = pool(tname, None, tier)
+        rows = p[:3]
+        for header in (HEADERS[tname] if thorough else HEADERS[tname][-1:]):
+            for writes, mode in (([[], []], "multi"), ([[], []], "files"), ([[], []], "append"), ([[], rev], "stream"),
+                                 ([rev, [], [_sl(1, None)]], "multi")):
+                for gz in ((False, True) if thorough else (False,)):
+                    yield _derived(tname, None, rows, writes, mode=mode, gz=gz, source="read", header=header)
+
+
 def all_cases(tier, rng=None):
     K = 4 if tier == "quick" else 6
     K3 = 3 if tier == "quick" else 5
     kminor = 2 if tier == "quick" else 3
     # round 1: every type, tables of 0..2 rows; then the small families; round 2: 3-row tables
     plans = [(tv, K, K3) for tv in TYPE_VARIANTS] + [(tv, kminor, kminor) for tv in MINOR_VARIANTS]
+    for fam in (history_family(tier), derived_family(tier)):      # first: they are never the part cut off by the time budget
+        for c in fam:
+            yield c
     for n_rows in (0, 1, 2, 3):
         if n_rows == 3:
             for fam in (int_family(), bigint_family(), suffix_family(tier), mode_family(tier), width_family(tier),
@@ -1002,15 +1434,25 @@ def run(tier="quick", seed=0):
                     "empty strings, negative ints, floats) and 3-row tables (quick: K*K Latin-square sample; thorough: all K^3) "
                     "x every composition of the rows into pieces (+ empty pieces) x {successive writes, stream of chunks, "
                     "'w' then 'a'} x {plain, gzip}; plus integer boundaries, suffixes, mode spellings, lazily read tables with one "
-                    "column replaced, read_chunks streams, grouped streams, FASTA widths 1/2/3/7, seeded 4..6-row sample.  distinct = distinct (type, variant, rows, split, mode, target); "
+                    "column replaced, read_chunks streams, grouped streams, FASTA widths 1/2/3/7, seeded 4..6-row sample; per type row "
+                    "selections (reverse, permutation, mask, stride, tail, repeat, empty, rotate, composed; all index lists / masks / "
+                    "slices of 3-row tables) of built and of read tables, and histories that write one table object (and its "
+                    "selections) several times with the frame condition 'table unchanged'.  distinct = distinct (type, variant, rows, split, mode, target); "
                     "non-trivial = all (each writes a file and compares all bytes with the reference serialisation)",
-                    budget_s=65 if tier == "quick" else 640)
+                    budget_s=73 if tier == "quick" else 700)
     col.bounds = {"types": [t + (":" + v if v else "") for t, v in TYPE_VARIANTS + MINOR_VARIANTS],
                   "pool_rows_K": K, "rows_per_table": "0..3", "three_row_tables": "K*K sample" if tier == "quick" else "all K^3",
                   "fasta_lengths": fasta_lengths(tier), "fasta_width": [fasta_width(), 1, 2, 3, 7], "fastq_lengths": FASTQ_LENGTHS[:K],
                   "int_boundaries": "10^k-1, 10^k for k=1..14, 2^31, 2^32, 2^53 (+-1); region bigint: |v| >= 10^15-1 up to int64 limits",
                   "splits": "all compositions + empty piece first/last/middle", "modes": ["one", "multi", "stream", "append", "grouped (small family)"],
-                  "targets": ["plain", "gzip"], "float_tolerance": "1e-9 relative"}
+                  "targets": ["plain", "gzip"], "float_tolerance": "1e-9 relative",
+                  "row_selections": "tables of 5 rows (thorough: 3..6), %d selection shapes; all index lists (length 1..n), masks and "
+                                    "slices (step +-1, +-2%s) of 3-row tables%s; source built | read from file"
+                                    % (len(selections(5, 2 if tier == "thorough" else 1)), ", +-3" if tier == "thorough" else "",
+                                       " and 4-row tables (key types)" if tier == "thorough" else " (key types)"),
+                  "one_table_histories": "same object written 2..3 times x {multi, stream, append, files} x {plain, gz}; slices of one "
+                                         "object as pieces (compositions of %s rows); object vs its selection; derived before / after "
+                                         "the previous write" % ("1..4" if tier == "thorough" else "3")}
     import logging
     logging.disable(logging.WARNING)          # the library logs a warning per VCF read / header context; not a verdict
     try:
